@@ -48,9 +48,12 @@ def caseOpt (eps : Float) (best : Option Float) (opt : Float) (impl : Sexp) : Ve
   | some e =>
     let model := tag "r" [ofBool (optimumReached e best opt)]
     -- property: a best value exists and is within epsilon of the optimum (either rounding of "within")
+    -- Domain (theorem `optimumReached_iff`, hypothesis `hlb`): the known optimum is a lower bound of
+    -- the best value; a best value below it is outside the property — nothing is demanded there.
     let s1 := match best with | some b => decide (b ≤ opt + e) | none => false
-    let s2 := match best with | some b => decide (b - opt ≤ e) | none => false
-    let holds := Sexp.beq (tag "r" [ofBool s1]) impl || Sexp.beq (tag "r" [ofBool s2]) impl
+    let s2 := match best with | some b => decide ((b - opt).abs ≤ e) | none => false
+    let outside := match best with | some b => decide (b < opt) | none => false
+    let holds := outside || Sexp.beq (tag "r" [ofBool s1]) impl || Sexp.beq (tag "r" [ofBool s2]) impl
     verdict (Sexp.beq model impl) holds "wrong-value" model
 
 def bools? (s : Sexp) : Option (List Bool) :=
@@ -109,7 +112,88 @@ def caseChgObj (th : Option Float) (vals : List Float) (impl : Sexp) : Verdict :
   let holds := match bools? impl with
     | some os => chgSpecOkF differs vals os
     | none => false
-  verdict (Sexp.beq model impl) holds "wrong-value" model
+  -- tie the exact-value model `deltaEqObj` (the counterexample theorems speak about it) to the run:
+  -- wherever it decides, it must say what the float computation says
+  let exactOk := match th with
+    | none => true
+    | some t =>
+      let pairs := vals.zip (vals.drop 1) ++ vals.map fun v => (v, v)
+      pairs.all fun (a, b) =>
+        match deltaEqObj (Objective.ofBits t.toBits) (Objective.ofBits a.toBits) (Objective.ofBits b.toBits) with
+        | some r => deltaEqG t a b == r
+        | none => true
+  verdict (Sexp.beq model impl && exactOk) holds "wrong-value" model
+
+/-! Several ChangeOf conditions, re-initialisation, scopes -/
+
+def lens? : Sexp → Option Nat
+  | .atom "it" => some 0
+  | .atom "ev" => some 1
+  | .atom "oa" => some 2
+  | .atom "ob" => some 3
+  | _ => none
+
+def condSpec? : Sexp → Option CondSpec
+  | .list [.atom "c", l, .atom "pe"] => (lens? l).map fun k => { lens := k, key := k, th := none }
+  | .list [.atom "c", l, .list [.atom "de", t]] => do
+    let k ← lens? l
+    let t ← nat? t
+    pure { lens := k, key := k, th := some t }
+  | _ => none
+
+/-- `fuel` bounds the nesting depth of scopes only. -/
+def parseItems : Nat → List Sexp → Option Items
+  | 0, _ => none
+  | fuel + 1, xs => go fuel xs
+where
+  go (fuel : Nat) : List Sexp → Option Items
+    | [] => some .nil
+    | x :: xs => do
+      let i ← match x with
+        | .list [.atom "set", l, v] => do pure (Item.ev (.set (← lens? l) (← nat? v)))
+        | .list [.atom "eval", c] => do pure (Item.ev (.eval (← nat? c)))
+        | .list [.atom "init", c] => do pure (Item.ev (.init (← nat? c)))
+        | .list (.atom "scope" :: body) => do pure (Item.scope (← parseItems fuel body))
+        | _ => none
+      let rest ← go fuel xs
+      pure (.cons i rest)
+
+def flatEvs? : Items → Option (List Ev)
+  | .nil => some []
+  | .cons (.ev e) is => (flatEvs? is).map (e :: ·)
+  | .cons (.scope _) _ => none
+
+def logSexp (log : List (Nat × Option Bool)) : Sexp :=
+  .list [tag "res" [.atom "ok"], tag "log" (log.map fun (c, r) =>
+    .list [ofNat c, match r with | some b => ofBool b | none => .atom "err"])]
+
+/-- Model: `Previous` is keyed by the lens (the code). Specification: every condition remembers
+what IT reported — the same run with a private key per condition. -/
+def caseChgMulti (conds : List CondSpec) (items : Items) (flat : Option (List Ev)) (impl : Sexp) : Verdict :=
+  let condOf : Nat → CondSpec := fun c => (conds[c]?).getD { lens := 0, key := 0, th := none }
+  let modelLog := runItems condOf items
+  let model := logSexp modelLog
+  let specOf : Nat → CondSpec := fun c => { condOf c with key := 100 + c }
+  let spec := logSexp (runItems specOf items)
+  -- the flat model the theorems speak about must say the same on scope-free cases
+  let flatOk := match flat with
+    | some evs =>
+      let s0 : MSt := { vals := fun _ => 0, stack := [fun _ => none] }
+      runFlat condOf (initItems condOf items s0) evs == modelLog
+    | none => true
+  verdict (Sexp.beq model impl && flatOk) (Sexp.beq spec impl) "wrong-value" model
+
+def caseLoopChg (th : Option Nat) (entries v0 : Nat) (script : List Nat) (impl : Sexp) : Verdict :=
+  let eqv : Nat → Nat → Bool := match th with
+    | none => partialEq
+    | some t => deltaEq t
+  let model := match loopChangeRun eqv entries v0 script with
+    | some ps => Sexp.list [tag "res" [.atom "ok"], tag "passes" (ps.map ofNat)]
+    | none => .atom "timeout"
+  let cls := match impl with
+    | .atom "panic" => "panic"
+    | _ => "count"
+  verdict (Sexp.beq model impl) (Sexp.beq model impl) cls model
 
 def isPrefix : List Nat → List Nat → Bool
   | [], _ => true
@@ -202,6 +286,16 @@ def c10 (input implOut : Sexp) : Option Verdict :=
   | .list [.atom "chgo", .atom "pe", .list (.atom "vals" :: vs)] => do caseChgObj none (← vs.mapM float?) implOut
   | .list [.atom "chgo", .list [.atom "de", t], .list (.atom "vals" :: vs)] => do
     caseChgObj (some (← float? t)) (← vs.mapM float?) implOut
+  | .list [.atom "chgm", .list (.atom "conds" :: cs), .list (.atom "items" :: is)] => do
+    let conds ← cs.mapM condSpec?
+    let items ← parseItems 16 is
+    caseChgMulti conds items (flatEvs? items) implOut
+  | .list [.atom "loopchg", _, ck, e, v0, .list (.atom "script" :: sc)] => do
+    let th ← match ck with
+      | .atom "pe" => some none
+      | .list [.atom "de", t] => (nat? t).map some
+      | _ => none
+    caseLoopChg th (← nat? e) (← nat? v0) (← sc.mapM nat?) implOut
   | .list [.atom "form", f, .list (.atom "env" :: os)] => do
     let (g, _) ← parseForm 64 f 0
     caseForm g (envOf (← os.mapM res?)) implOut
